@@ -86,6 +86,7 @@ type zvsCase struct {
 	Tid    string    `json:"tid"`
 	Eps    []zvsTpl  `json:"eps"`
 	Bundle zvsBundle `json:"bundle"`
+	Req    string    `json:"req"`   // request content class (default "full")
 	Tries  int       `json:"tries"` // tries per endpoint of the retry interceptor (default 1)
 	Ctx    string    `json:"ctx"`   // request budget: "wide" (default) | "tight" | "none" | "ample"
 	Hist   string    `json:"hist"`  // process history: "none" (default) | "before" | "between" | "signer" | "rotate"
@@ -112,6 +113,7 @@ type zvsReset struct {
 	Eps    []zvsTpl  `json:"eps"`
 	Bundle zvsBundle `json:"bundle"`
 	Ctx    string    `json:"ctx"`
+	Req    string    `json:"req"`
 	Tries  int       `json:"tries"`
 	Hist   string    `json:"hist"`
 	Info   *zvsInfo  `json:"info"`
@@ -321,7 +323,7 @@ func zvsRandomCase(tid string, r *mrand.Rand, tlsMode bool, onlyCas []string) zv
 	if !tlsMode && r.Intn(12) == 0 {
 		n = 0
 	}
-	c := zvsCase{Tid: tid, Eps: make([]zvsTpl, n), Bundle: zvsBundle{Cas: []string{}, Lay: "none"}, Info: &zvsInfo{Replies: make([]string, n), Codes: make([]int, n)}}
+	c := zvsCase{Tid: tid, Eps: make([]zvsTpl, n), Bundle: zvsBundle{Cas: []string{}, Lay: "none"}, Req: zvsReqKinds[r.Intn(len(zvsReqKinds))], Info: &zvsInfo{Replies: make([]string, n), Codes: make([]int, n)}}
 	if tlsMode {
 		bs := []zvsBundle{{[]string{"ca1"}, "one"}, {[]string{"ca1", "ca2"}, "two"}, {[]string{"ca1", "ca2"}, "concat"}, {[]string{"ca2"}, "one"}, {[]string{"ca2", "ca1"}, "two"}}
 		if len(onlyCas) > 0 {
@@ -412,7 +414,39 @@ func zvsRandomCase(tid string, r *mrand.Rand, tlsMode bool, onlyCas []string) zv
 	return c
 }
 
-func zvsRequest(r *mrand.Rand, tid string) *pb.SSHCertificateSigningRequest {
+// zvsReqKinds are the request content classes (spec: env.req).
+var zvsReqKinds = []string{"full", "noext", "emptyext", "customext", "nocrit", "emptycrit", "noprins", "oneprin", "zeroval", "maxval", "nokeymeta", "bare"}
+
+func zvsRequest(r *mrand.Rand, tid string, kind string) *pb.SSHCertificateSigningRequest {
+	q := zvsFullRequest(r, tid)
+	switch kind {
+	case "noext": // e.g. a restricted forced-command certificate
+		q.Extensions = nil
+	case "emptyext":
+		q.Extensions = map[string]string{}
+	case "customext":
+		q.Extensions = map[string]string{"permit-pty": "", "x-verif@example": "v"}
+	case "nocrit":
+		q.CriticalOptions = nil
+	case "emptycrit":
+		q.CriticalOptions = map[string]string{}
+	case "noprins":
+		q.Principals = nil
+	case "oneprin":
+		q.Principals = []string{"solo"}
+	case "zeroval":
+		q.Validity = 0
+	case "maxval":
+		q.Validity = ^uint64(0)
+	case "nokeymeta":
+		q.KeyMeta = nil
+	case "bare":
+		q = &pb.SSHCertificateSigningRequest{PublicKey: q.PublicKey}
+	}
+	return q
+}
+
+func zvsFullRequest(r *mrand.Rand, tid string) *pb.SSHCertificateSigningRequest {
 	return &pb.SSHCertificateSigningRequest{
 		KeyMeta:         &pb.KeyMeta{Identifier: "ssh-user-key-" + tid},
 		Principals:      []string{"user", "user:touch", fmt.Sprintf("p%d", r.Intn(1000))},
@@ -482,6 +516,7 @@ func zvsNewPKI(dir string) *zvsPKI {
 	for _, n := range []string{"ca1", "ca2", "caX", "caH", "cli"} {
 		p.ca[n] = p.authority("verif " + n)
 	}
+	p.ca["ca1b"] = p.authority("verif ca1") // another CA certificate (own key) under the subject name of ca1
 	w := func(name string, b []byte) string {
 		f := filepath.Join(dir, name)
 		zvsMust(os.WriteFile(f, b, 0o600))
@@ -489,6 +524,7 @@ func zvsNewPKI(dir string) *zvsPKI {
 	}
 	p.caFile["ca1"] = w("ca1.pem", p.ca["ca1"].pem)
 	p.caFile["ca2"] = w("ca2.pem", p.ca["ca2"].pem)
+	p.caFile["ca1b"] = w("ca1b.pem", p.ca["ca1b"].pem)
 	p.caFile["caX"] = w("caX.pem", p.ca["caX"].pem)
 	p.caFile["concat"] = w("ca12.pem", append(append([]byte{}, p.ca["ca1"].pem...), p.ca["ca2"].pem...))
 	// the trust store of the RA's host, under the control of the harness: it holds the CA "caH" only.  Go reads these
@@ -528,7 +564,7 @@ func (p *zvsPKI) leaf(id string, pos int) *tls.Certificate {
 		IPAddresses: []net.IP{net.IPv4(127, 0, 0, byte(pos))}, BasicConstraintsValid: true}
 	var parent *zvsAuthority
 	switch id {
-	case "ca1", "ca2":
+	case "ca1", "ca2", "ca1b":
 		parent = p.ca[id]
 	case "foreign":
 		parent = p.ca["caX"]
@@ -553,14 +589,30 @@ func (p *zvsPKI) leaf(id string, pos int) *tls.Certificate {
 }
 
 func (p *zvsPKI) bundleFiles(b zvsBundle) []string {
-	switch {
-	case b.Lay == "concat":
-		return []string{p.caFile["concat"]}
-	case len(b.Cas) == 0:
+	if len(b.Cas) == 0 {
 		return []string{p.caFile["ca1"]}
 	}
+	names := append([]string{}, b.Cas...)
+	if strings.HasSuffix(b.Lay, "rev") { // the other order of the files / of the certificates in the file
+		for i, j := 0, len(names)-1; i < j; i, j = i+1, j-1 {
+			names[i], names[j] = names[j], names[i]
+		}
+	}
+	if strings.HasPrefix(b.Lay, "concat") {
+		f := filepath.Join(p.dir, "concat_"+strings.Join(names, "_")+".pem")
+		p.mu.Lock()
+		defer p.mu.Unlock()
+		if _, err := os.Stat(f); err != nil {
+			var all []byte
+			for _, c := range names {
+				all = append(all, p.ca[c].pem...)
+			}
+			zvsMust(os.WriteFile(f, all, 0o600))
+		}
+		return []string{f}
+	}
 	var fs []string
-	for _, c := range b.Cas {
+	for _, c := range names {
 		fs = append(fs, p.caFile[c])
 	}
 	return fs
@@ -981,7 +1033,10 @@ func (l *zvsLane) run(c *zvsCase, base *zvsBase, r *mrand.Rand, tryMs int) []int
 		reply[m] = c.raw[m]
 		hasDeadline = hasDeadline || c.Eps[m].Cls == "deadline"
 	}
-	req := zvsRequest(r, c.Tid)
+	if c.Req == "" {
+		c.Req = "full"
+	}
+	req := zvsRequest(r, c.Tid, c.Req)
 	l.mu.Lock()
 	l.cur, l.reply, l.hits, l.req = c, reply, nil, proto.Clone(req).(*pb.SSHCertificateSigningRequest)
 	l.mu.Unlock()
@@ -1143,7 +1198,7 @@ func (l *zvsLane) run(c *zvsCase, base *zvsBase, r *mrand.Rand, tryMs int) []int
 		}
 		s.dialOptions = append(append([]grpc.DialOption{}, s.dialOptions...), grpc.WithTransportCredentials(insecure.NewCredentials()), grpc.WithContextDialer(l.dial))
 	}
-	res := zvsReset{Ev: "reset", Tid: c.Tid, Eps: c.Eps, Bundle: zvsBundle{Cas: zvsNorm(c.Bundle.Cas), Lay: c.Bundle.Lay}, Ctx: c.Ctx, Tries: c.Tries, Hist: c.Hist, Info: c.Info}
+	res := zvsReset{Ev: "reset", Tid: c.Tid, Eps: c.Eps, Bundle: zvsBundle{Cas: zvsNorm(c.Bundle.Cas), Lay: c.Bundle.Lay}, Ctx: c.Ctx, Req: c.Req, Tries: c.Tries, Hist: c.Hist, Info: c.Info}
 	if s != nil {
 		var certs []ssh.PublicKey
 		var comments []string
@@ -1232,6 +1287,10 @@ func (l *zvsLane) run(c *zvsCase, base *zvsBase, r *mrand.Rand, tryMs int) []int
 		l.mu.Lock()
 		l.cancelMid = nil
 		l.mu.Unlock()
+		// the caller's message after the call against the deep copy taken before it
+		l.mu.Lock()
+		kept := hang || proto.Equal(req, l.req)
+		l.mu.Unlock()
 		c.Info.WallMs = int(time.Since(started) / time.Millisecond)
 		if c.Ctx == "ample" && !hang && time.Since(started) > budget*6/10 {
 			// correct code needs at most a third of this budget; a run that used more than 60 % of it was slowed down by the
@@ -1304,7 +1363,7 @@ func (l *zvsLane) run(c *zvsCase, base *zvsBase, r *mrand.Rand, tryMs int) []int
 				c.Info.Note = c.Info.Note[:300]
 			}
 		}
-		step(map[string]interface{}{"op": "return", "err": err != nil, "pan": pan, "hang": hang, "certs": fps, "cm": cms})
+		step(map[string]interface{}{"op": "return", "err": err != nil, "pan": pan, "hang": hang, "kept": kept, "certs": fps, "cm": cms})
 	}
 	l.mu.Lock()
 	l.cur = nil
